@@ -40,7 +40,7 @@ def cases(seed, tier):
             w = w + r.choice("SWNswn") + "".join(comp[c] for c in reversed(w))
         yield ["revcomp", w]
     size_of = {"A":1,"C":1,"G":1,"T":1,"N":4,"B":3,"D":3,"H":3,"V":3}
-    cap = 4096 if tier == "quick" else 1000000
+    cap = 4096 if tier == "quick" else 200000
     for i in range(n):
         k = r.randint(1, 14 if i % 10 else 40)
         w, total = "", 1
